@@ -483,7 +483,9 @@ def _c04_worker(args):
                 cnt("runs_with_a_failing_ssh_client[%s]" % sshfault.split(":")[0])
             unreadable = None
             subdirs = sorted({os.path.dirname(p) for p in srcm if os.path.dirname(p) and re.fullmatch(r"[A-Za-z0-9._/-]+", os.path.dirname(p))})
-            if mode == 7 and direction != "pull" and subdirs and not sshfault and not fail and not case.get("src_symlink") and not case.get("dst_symlink"):
+            # (not in the ASan variant: the sanitizer runtime itself aborts when, as `nobody`, it cannot create its log
+            # directory under the root-owned work area - seen once in the first thorough pass)
+            if mode == 7 and direction != "pull" and subdirs and not sshfault and not fail and not case.get("src_symlink") and not case.get("dst_symlink") and os.environ.get("VERIF_VARIANT") != "asan":
                 # part of the source cannot be listed by the invoking user (the checks run as root, which ignores mode
                 # bits, so this one run is made as `nobody`): the listing is incomplete, and exit status 0 would claim
                 # a mirror that was never made
